@@ -271,7 +271,7 @@ def main(argv=None):
         return 0
     if a.digest:
         import hashlib
-        total = batch(focus, a.seed, a.tier, a.runs or 300, a.jobs, a.wall, profile={'digests': True})
+        total = batch(focus, a.seed, a.tier, a.runs or 300, a.jobs, a.wall or 10 ** 6, profile={'digests': True})
         h = hashlib.sha256(json.dumps(total['digests']).encode()).hexdigest()
         print("DIGEST %s runs=%d hashseed=%s jobs=%s %s status=%s" % (focus, total['runs'], os.environ.get('PYTHONHASHSEED'),
                                                                      a.jobs, h, dict(total['status'])))
